@@ -738,13 +738,13 @@ def run(ctx):
     ctx.trusted.append("the SQL rewriter of harness/props/c18.py (meaning of TOP / OFFSET-FETCH / LIMIT ALL / LIMIT o,l / ROWNUM)")
     ctx.trusted.append("SQLite 3 window functions and LIMIT as the executing backend")
     names, cases, impl_out, reqs = [], [], [], []
-    n = 280 if ctx.tier == "quick" else 6000
+    n = 450 if ctx.tier == "quick" else 6000
     for _ in range(n):
         one(ctx, gen_case(ctx.rng, ctx.tier), names, cases, impl_out, reqs)
     check_ties_percent(ctx, names, cases, impl_out, reqs)
     check_ties_percent_exec(ctx, names, cases, impl_out, reqs, 120 if ctx.tier == "quick" else 1500)
-    check_slices(ctx, names, cases, impl_out, reqs, 150 if ctx.tier == "quick" else 3000)
-    check_embedded(ctx, 50 if ctx.tier == "quick" else 800)
+    check_slices(ctx, names, cases, impl_out, reqs, 250 if ctx.tier == "quick" else 3000)
+    check_embedded(ctx, 80 if ctx.tier == "quick" else 800)
     if ctx.driver_ok():
         model = ctx.driver(reqs)
         for nm in sorted(set(names)):
